@@ -58,7 +58,57 @@ def funcs(ctx, module=None, stubs=None):
     consts = {}
     exprs = {}
 
+    _alias_tables = {}
+
+    def _tables():
+        """one pass over the imports of the package: {bound name: target} for names imported under another name, and for modules bound to a name"""
+        if _alias_tables:
+            return _alias_tables
+        names, mods = {}, {}
+        cur = ctx.prog.modules.get(module)
+        mods_ = ([cur] if cur is not None else []) + [m_ for m_ in ctx.prog.modules.values() if m_ is not cur]
+        for m_ in mods_:
+            pkg = m_.name.split('.')[:-1]
+            for imp in ast.walk(m_.tree):
+                if isinstance(imp, ast.Import):
+                    for al in imp.names:
+                        if al.asname and al.name == 'math':
+                            names.setdefault(al.asname, ('math',))
+                        elif al.asname and al.name in ctx.prog.modules:
+                            mods.setdefault(al.asname, al.name)
+                elif isinstance(imp, ast.ImportFrom):
+                    base = imp.module or ''
+                    if imp.level:
+                        up = pkg[:len(pkg) - (imp.level - 1)] if imp.level > 1 else pkg
+                        base = '.'.join(up + ([imp.module] if imp.module else []))
+                    for al in imp.names:
+                        bound = al.asname or al.name
+                        if (base + '.' + al.name) in ctx.prog.modules:
+                            mods.setdefault(bound, base + '.' + al.name)
+                            continue
+                        if not al.asname or al.asname == al.name:
+                            continue
+                        if imp.level == 0 and imp.module == 'math' and hasattr(math, al.name):
+                            names.setdefault(bound, ('mathname', al.name))
+                            continue
+                        if not base.startswith('tracklib'):
+                            continue
+                        target = None
+                        for q_ in [base] + [q2 for q2 in ctx.prog.modules if q2.startswith(base + '.')]:
+                            if q_ in ctx.prog.modules and (ctx.prog.maybe_func(q_ + '.' + al.name) is not None or (q_ + '.' + al.name) in ctx.prog.classes or al.name in ctx.prog.modules[q_].consts):
+                                target = ('repo', q_, al.name)
+                                break
+                        names.setdefault(bound, target or ('repo', base, al.name))
+        _alias_tables['names'], _alias_tables['mods'] = names, mods
+        return _alias_tables
+
+    def import_alias(nm):
+        return _tables()['names'].get(nm)
+
     def module_alias(nm):
+        return _tables()['mods'].get(nm)
+
+    def _module_alias_old(nm):
         cur = ctx.prog.modules.get(module)
         mods_ = ([cur] if cur is not None else []) + [m_ for m_ in ctx.prog.modules.values() if m_ is not cur]
         for m_ in mods_:
@@ -134,6 +184,24 @@ def funcs(ctx, module=None, stubs=None):
                     for al in imp.names:
                         if (al.asname or al.name) == nm and orders.pure_module(al.name) is not None:
                             return orders.pure_module(al.name)
+        # a function, class or constant of the repository imported under another name (from ..utils import listify as _listify), math under
+        # another name (import math as _math)
+        al_ = import_alias(nm)
+        if al_ is not None:
+            if al_[0] == 'math':
+                return orders._MathModule()
+            if al_[0] == 'mathname':
+                return getattr(math, al_[1])
+            if al_[0] == 'repo' and al_[2] != nm:
+                mod_q, orig = al_[1], al_[2]
+                fi_ = ctx.prog.maybe_func(mod_q + '.' + orig)
+                if fi_ is not None and fi_.cls is None:
+                    return make(fi_, orig)
+                if (mod_q + '.' + orig) in ctx.prog.classes:
+                    if ('class', mod_q + '.' + orig) not in exprs:
+                        exprs[('class', mod_q + '.' + orig)] = ClassRef(ctx, mod_q + '.' + orig, fn)
+                    return exprs[('class', mod_q + '.' + orig)]
+                return name_of(orig)
         # a module of the repository bound to a name (from ..util import helpers as _helpers; import tracklib.util.helpers as _hp)
         mq_ = module_alias(nm)
         if mq_ is not None:
